@@ -56,4 +56,21 @@ impl P {
     pub fn mk(a: u64) -> Self {
         Self { a, b: a + 1 }
     }
+
+    pub fn collect_present(&self, ids: &[u64]) -> Vec<u64> {
+        let mut out = Vec::new();
+        for id in ids {
+            if let Some(v) = self.table.get(id) {
+                out.push(*v);
+            }
+        }
+        out
+    }
+
+    pub fn effect_not_understood(&self, ids: &[u64]) -> usize {
+        for id in ids {
+            self.audit(id);
+        }
+        ids.len()
+    }
 }
